@@ -1,4 +1,4 @@
-import BreezyVerif.Lemmas.C33
+import BreezyVerif.Lemmas.C33Limited
 import BreezyVerif.Lemmas.C33Wire
 /-!
 C33 — theorems.  All parent maps, client caches, missing sets, tips and depth
@@ -384,13 +384,195 @@ theorem recipe_serialise_roundtrip (r : WireRecipe)
   simp only [parseDec_toDec]
   rw [split_join SP r.start (fun x hx => (h1 x hx).1), split_join SP r.stop (fun x hx => (h2 x hx).1)]
 
-/-! ### non-vacuity: the hypotheses hold on concrete non-trivial inputs -/
-
 /-- repository: `4 → {2,3}`, `3 → {1, ghost 9}`, `2 → 1`, `1 → null` -/
 def exG : PMap := [(0, []), (1, [0]), (2, [1]), (3, [1, 9]), (4, [2, 3])]
 def exD : Key → Nat := fun k => if k = 9 then 100 else 20 - k
 /-- client cache: revisions 4, 3, 2 seen; 9 known missing -/
 def exPM : PMap := [(4, [2, 3]), (3, [1, 9]), (2, [1])]
+
+/-! ### what the limited recipe's "intended" set is (independent of the client's own walk) -/
+
+/-- `heads_char`: `_find_possible_heads(parent_map, tips, depth)` returns exactly the
+keys at child distance `depth` from the tips, plus the childless keys at a smaller
+distance (`AtDist` = breadth-first level of the child graph of the cache) -/
+theorem heads_char (pm : PMap) (tips : List Key) (depth : Nat) (h : Key) :
+    h ∈ findPossibleHeads pm tips depth ↔
+      (AtDist pm tips depth h ∨ ∃ n, n < depth ∧ AtDist pm tips n h ∧ childrenOf pm h = []) :=
+  findPossibleHeads_char pm tips depth h
+
+/-- `limited_keys_char`: the key set the client tells the server it has seen is,
+declaratively, the cached non-tip keys reachable — by parent steps through cached
+non-tip keys — from a key satisfying `HeadSpec`.  Together with
+`limited_recipe_exact` this pins the server's walk to a set defined without
+running the client's searcher: a client walk that shrank would violate it. -/
+theorem limited_keys_char (pm : PMap) (tips : List Key) (depth : Nat) (L : Limited)
+    (hne : pm ≠ []) (hL : limitedSearchResult pm tips depth = some L) (k : Key) :
+    k ∈ L.keys ↔ ReachP pm tips (HeadSpec pm tips depth) k ∧ k ∉ tips ∧
+      ∃ ps, parentsOf pm k = some ps := by
+  rw [limited_keys_mem pm tips depth L hne hL k,
+    reach_iff_reachP (fun h => findPossibleHeads_char pm tips depth h) k]
+
+/-- `limited_keys_lower`: in a dict-shaped acyclic cache whose tips are not cached
+themselves (they are the keys being requested), EVERY key within `depth` child
+steps of a tip is in the set — the "depth-step child closure of the tips" -/
+theorem limited_keys_lower (pm : PMap) (tips : List Key) (depth : Nat) (d : Key → Nat) (L : Limited)
+    (hac : Acyclic d pm) (hnd : (keysOf pm).Nodup) (htips : ∀ t ∈ tips, t ∉ keysOf pm)
+    (hL : limitedSearchResult pm tips depth = some L)
+    (n : Nat) (k : Key) (h1 : 1 ≤ n) (hn : n ≤ depth) (hp : PathN pm tips n k) : k ∈ L.keys := by
+  obtain ⟨t, ht, hs⟩ := hp
+  obtain ⟨n', rfl⟩ : ∃ n', n = n' + 1 := ⟨n - 1, by omega⟩
+  obtain ⟨r, _, hkr⟩ := childSteps_unsnoc n' t k hs
+  obtain ⟨ps, hmem, _⟩ := mem_childrenOf.mp hkr
+  have hpk : parentsOf pm k = some ps := parentsOf_of_mem hnd hmem
+  have hkey : k ∈ keysOf pm := mem_keys_of_parentsOf hpk
+  have hne : pm ≠ [] := by rintro rfl; cases hmem
+  rw [limited_keys_mem pm tips depth L hne hL k]
+  exact ⟨reach_of_within pm tips depth d hac hnd htips (d k) k rfl hkey ⟨n' + 1, hn, t, ht, hs⟩,
+    fun hkt => htips k hkt hkey, ps, hpk⟩
+
+/-- … and the set is closed under cached non-tip parents (all cached ancestors of
+its members, up to the tips) -/
+theorem limited_keys_parent_closed (pm : PMap) (tips : List Key) (depth : Nat) (L : Limited)
+    (hL : limitedSearchResult pm tips depth = some L) (j p : Key) (ps ps' : List Key)
+    (hj : j ∈ L.keys) (hps : parentsOf pm j = some ps) (hp : p ∈ ps) (hpt : p ∉ tips)
+    (hpp : parentsOf pm p = some ps') : p ∈ L.keys := by
+  have hne : pm ≠ [] := by rintro rfl; cases hps
+  rw [limited_keys_mem pm tips depth L hne hL] at hj ⊢
+  exact ⟨Reach.step hj.1 hj.2.1 hps hp, hpt, ps', hpp⟩
+
+/-! ### ghosts filled on the server between the client's caching and the replay -/
+
+/-- `limited_recipe_ghost_fill_safe` (the claim in the comment of
+`recreate_search_from_recipe`): the limited recipe lists the cache's ghosts as
+stop keys, so it is accepted with the same key set on ANY two acyclic server
+graphs that agree with the cache on the cached keys — in particular before and
+after a key the client saw as missing has been filled in. -/
+theorem limited_recipe_ghost_fill_safe (g g' pm : PMap) (tips : List Key) (depth : Nat) (d d' : Key → Nat)
+    (hac : Acyclic d g) (hsub : SubMap pm g) (hac' : Acyclic d' g') (hsub' : SubMap pm g') :
+    ∃ L, limitedSearchResult pm tips depth = some L ∧
+      (∃ a b inc, recreate g L.recipe false = some (.ok a b inc) ∧ ∀ k, k ∈ inc ↔ k ∈ L.keys) ∧
+      (∃ a b inc, recreate g' L.recipe false = some (.ok a b inc) ∧ ∀ k, k ∈ inc ↔ k ∈ L.keys) := by
+  obtain ⟨L, hL, h1⟩ := limited_recipe_accepted g pm tips depth d hac hsub
+  obtain ⟨L', hL', h2⟩ := limited_recipe_accepted g' pm tips depth d' hac' hsub'
+  rw [hL] at hL'; cases hL'
+  exact ⟨L, hL, h1, h2⟩
+
+/-- the server after ghost `9` of `exG` was filled in (with parent `1`) -/
+def exGfilled : PMap := [(0, []), (1, [0]), (2, [1]), (9, [1]), (3, [1, 9]), (4, [2, 3])]
+def exDfilled : Key → Nat := fun k => if k = 9 then 18 else 20 - k
+
+/-- `unlimited_ghost_filled_witness`: the UNLIMITED recipe prunes recorded-missing
+keys from its stop keys (hypothesis `hmiss` of `recipe_exact`), so once such a key
+exists on the server the replay walks through it and the count check fails
+(`NoSuchRevision`) — while the limited recipe of the same cache is accepted on both
+graphs.  (The unlimited form is only used when `_DEFAULT_SEARCH_DEPTH <= 0`.) -/
+theorem unlimited_ghost_filled_witness :
+    Acyclic exDfilled exGfilled ∧ SubMap exPM exGfilled ∧
+    recreate exG (searchResultFromParentMap exPM [9]) false = some (.ok [4] [1, 9] [4, 2, 3]) ∧
+    recreate exGfilled (searchResultFromParentMap exPM [9]) false = some .noSuchRevision ∧
+    (limitedSearchResult exPM [1] 2).map (fun L => (recreate exG L.recipe false, recreate exGfilled L.recipe false)) =
+      some (some (.ok [4] [1, 9] [4, 2, 3]), some (.ok [4] [1, 9] [4, 2, 3])) := by
+  decide
+
+/-! ### end to end: recipe → wire bytes → parsed → replayed -/
+
+def toWire (enc : Key → Bytes) (r : Recipe) : WireRecipe := ⟨r.start.map enc, r.stop.map enc, r.count⟩
+def ofWire (dec : Bytes → Key) (w : WireRecipe) : Recipe := ⟨w.start.map dec, w.stop.map dec, w.count⟩
+
+/-- serialising, parsing and replaying a recipe the server accepts gives the same
+included keys (an empty start / stop field arrives as the key `b""`, a ghost) -/
+theorem wire_transport (g : PMap) (r : Recipe) (enc : Key → Bytes) (dec : Bytes → Key)
+    (hdec : ∀ k, dec (enc k) = k) (henc : ∀ k, SP ∉ enc k ∧ NL ∉ enc k)
+    (hE : parentsOf g (dec []) = none)
+    (a b inc : List Key) (h : recreate g r false = some (.ok a b inc)) :
+    ∃ w, parseRecipe (serialise (toWire enc r)) = some w ∧
+      ∃ a' b' inc', recreate g (ofWire dec w) false = some (.ok a' b' inc') ∧ ∀ k, k ∈ inc' ↔ k ∈ inc := by
+  have hrt := recipe_serialise_roundtrip (toWire enc r)
+    (by intro x hx; obtain ⟨k, _, rfl⟩ := List.mem_map.mp hx; exact henc k)
+    (by intro x hx; obtain ⟨k, _, rfl⟩ := List.mem_map.mp hx; exact henc k)
+  refine ⟨_, hrt, ?_⟩
+  have hmm : ∀ l : List Key, (l.map enc).map dec = l := by
+    intro l; simp [List.map_map, Function.comp_def, hdec]
+  have hstart : ∃ gs, (∀ e ∈ gs, parentsOf g e = none) ∧
+      (if (toWire enc r).start = [] then [[]] else (toWire enc r).start).map dec = gs ++ r.start := by
+    by_cases he : r.start = []
+    · exact ⟨[dec []], by simpa using hE, by simp [toWire, he]⟩
+    · exact ⟨[], by simp, by simp [toWire, he, hmm]⟩
+  have hstop : ∃ gs', (∀ e ∈ gs', parentsOf g e = none) ∧
+      (if (toWire enc r).stop = [] then [[]] else (toWire enc r).stop).map dec = gs' ++ r.stop := by
+    by_cases he : r.stop = []
+    · exact ⟨[dec []], by simpa using hE, by simp [toWire, he]⟩
+    · exact ⟨[], by simp, by simp [toWire, he, hmm]⟩
+  obtain ⟨gs, hgs, e1⟩ := hstart
+  obtain ⟨gs', hgs', e2⟩ := hstop
+  have := recreate_add_ghosts g r gs gs' hgs hgs' a b inc h
+  simp only [ofWire, e1, e2]
+  exact this
+
+/-- `recipe_end_to_end`: client recipe → `_serialise_search_recipe` → server parse →
+replay: accepted, and the walk is exactly the intended set -/
+theorem recipe_end_to_end (g pm : PMap) (missing : List Key) (d : Key → Nat)
+    (enc : Key → Bytes) (dec : Bytes → Key)
+    (hdec : ∀ k, dec (enc k) = k) (henc : ∀ k, SP ∉ enc k ∧ NL ∉ enc k)
+    (hE : parentsOf g (dec []) = none)
+    (hac : Acyclic d g) (hsub : SubMap pm g) (hnd : (keysOf pm).Nodup)
+    (hnull : parentsOf g null = some [])
+    (hmiss : ∀ m ∈ missing, m ≠ null → parentsOf g m = none)
+    (hmn : null ∈ missing → null ∉ keysOf pm) :
+    ∃ w, parseRecipe (serialise (toWire enc (searchResultFromParentMap pm missing))) = some w ∧
+      ∃ a b inc, recreate g (ofWire dec w) false = some (.ok a b inc) ∧
+        ∀ k, k ∈ inc ↔ k ∈ intended pm missing := by
+  obtain ⟨a, b, inc, hr, hinc⟩ := recipe_accepted g pm missing d hac hsub hnd hnull hmiss hmn
+  obtain ⟨w, hw, a', b', inc', hr', hinc'⟩ := wire_transport g _ enc dec hdec henc hE a b inc hr
+  exact ⟨w, hw, a', b', inc', hr', fun k => (hinc' k).trans (hinc k)⟩
+
+/-- `limited_end_to_end`: the same for the limited recipe -/
+theorem limited_end_to_end (g pm : PMap) (tips : List Key) (depth : Nat) (d : Key → Nat)
+    (enc : Key → Bytes) (dec : Bytes → Key)
+    (hdec : ∀ k, dec (enc k) = k) (henc : ∀ k, SP ∉ enc k ∧ NL ∉ enc k)
+    (hE : parentsOf g (dec []) = none)
+    (hac : Acyclic d g) (hsub : SubMap pm g) :
+    ∃ L, limitedSearchResult pm tips depth = some L ∧
+      ∃ w, parseRecipe (serialise (toWire enc L.recipe)) = some w ∧
+        ∃ a b inc, recreate g (ofWire dec w) false = some (.ok a b inc) ∧ ∀ k, k ∈ inc ↔ k ∈ L.keys := by
+  obtain ⟨L, hL, a, b, inc, hr, hinc⟩ := limited_recipe_accepted g pm tips depth d hac hsub
+  obtain ⟨w, hw, a', b', inc', hr', hinc'⟩ := wire_transport g _ enc dec hdec henc hE a b inc hr
+  exact ⟨L, hL, w, hw, a', b', inc', hr', fun k => (hinc' k).trans (hinc k)⟩
+
+/-- the harness' key encoding: `r<decimal>` (and everything else, such as `b""`,
+decodes to the never-present key 999999) -/
+def exEnc (k : Key) : Bytes := 114 :: toDec k
+def exDec : Bytes → Key
+  | 114 :: rest => match parseDec rest with
+    | some n => n
+    | none => 999999
+  | _ => 999999
+
+theorem sp_not_mem_toDec (n : Nat) : SP ∉ toDec n := by
+  intro h
+  rcases mem_toDecAux _ _ _ h with h | ⟨m, hm, h⟩
+  · cases h
+  · have := congrArg UInt8.toNat h
+    rw [digit_toNat hm] at this
+    simp [SP] at this
+    omega
+
+/-- non-vacuity of the encoding hypotheses of the end-to-end theorems -/
+theorem exEnc_ok : (∀ k, exDec (exEnc k) = k) ∧ (∀ k, SP ∉ exEnc k ∧ NL ∉ exEnc k) ∧
+    parentsOf exG (exDec []) = none := by
+  refine ⟨fun k => ?_, fun k => ⟨?_, ?_⟩, by decide⟩
+  · simp [exEnc, exDec, parseDec_toDec]
+  · intro h
+    rcases List.mem_cons.mp h with h | h
+    · simp [SP] at h
+    · exact sp_not_mem_toDec k h
+  · intro h
+    rcases List.mem_cons.mp h with h | h
+    · simp [NL] at h
+    · exact nl_not_mem_toDec k h
+
+/-! ### non-vacuity: the hypotheses hold on concrete non-trivial inputs -/
+
 
 example : Acyclic exD exG ∧ SubMap exPM exG ∧ (keysOf exPM).Nodup ∧ parentsOf exG null = some [] ∧
     (∀ m ∈ [9], m ≠ null → parentsOf exG m = none) ∧ (null ∈ [9] → null ∉ keysOf exPM) := by
@@ -408,5 +590,16 @@ example : ∀ x ∈ [[114, 52], [114, 51]], SP ∉ x ∧ NL ∉ (x : Bytes) := b
 example : parseRecipe (serialise ⟨[[114, 52]], [], 3⟩) = some ⟨[[114, 52]], [[]], 3⟩ := by decide
 example : parentsOf exG 9 = none ∧ parentsOf exG 7 = none := by decide
 example : findPossibleHeads exPM [1] 1 = [3, 2] ∧ findPossibleHeads exPM [1] 2 = [4] := by decide
+/-- non-vacuity of `limited_keys_lower`: dict-shaped acyclic cache, uncached tip, and a key two
+child steps above it -/
+example : Acyclic exD exPM ∧ (keysOf exPM).Nodup ∧ (∀ t ∈ [1], t ∉ keysOf exPM) ∧
+    PathN exPM [1] 2 4 ∧ (limitedSearchResult exPM [1] 2).map (·.keys) = some [4, 2, 3] :=
+  ⟨by decide, by decide, by decide,
+    ⟨1, by decide, ChildSteps.succ (c := 2) (by decide) (ChildSteps.succ (c := 4) (by decide) ChildSteps.zero)⟩,
+    by decide⟩
+/-- end to end on the example: an empty stop field travels as `b""` -/
+example : parseRecipe (serialise (toWire exEnc ⟨[4], [], 5⟩)) = some ⟨[[114, 52]], [[]], 5⟩ ∧
+    recreate exG (ofWire exDec ⟨[[114, 52]], [[]], 5⟩) false = some (.ok [4] [9] [4, 2, 3, 1, 0]) := by
+  decide
 
 end BreezyVerif.C33
